@@ -492,6 +492,8 @@ func (o *ONS) gammaTrack(c *Ctx) []hist.TxSpec {
 			onsCreate(c, seller, nil, gamma, priceFor(c, 5000), "", "create a name that will be sold together with a brand-new sub-domain"),
 			// somebody else's name of which the traded name is a textual suffix, with a sub-domain of its own
 			onsCreate(c, us[0], nil, "q"+o.beta(), priceFor(c, 7000), "", "create a name that merely ends in another owner's name"),
+			// ... and a stranger registers another spelling of somebody else's name (upper-case first letter)
+			onsCreate(c, us[3%len(us)], nil, "B"+o.beta()[1:], priceFor(c, 6000), "", "create somebody else's name spelt with a capital letter"),
 		}
 	case o.g == 1 && changeable(c, g):
 		o.g = 2
